@@ -83,6 +83,27 @@ def distribution(src, n=2, procs=2, lean=True, dist=('SINGLE_INSTANCE', 'SINGLE_
                     pend[i] = pend[i] + s['L']
 
 
+@rigged
+def sequence_of_three(src, n=2, procs=3):
+    """H14c: three processes of one sequence of a distributed application through the real Starter: each request goes
+    where the strategy says given the loads *including every start already requested* (two of them may be pending on
+    the same instance when the third is placed)"""
+    from harness.c04 import start_apps
+    core, targets, reqs = start_apps.__wrapped__(src, n=n, procs=procs, apps=1, lean=True)
+    application, dist_rule, plist = targets[0]
+    ids = core.ids
+    strat = application.rules.starting_strategy.name
+    by_name = {p.process_name: s for p, s in plist}
+    pend = [0] * n
+    for identifier, namespec in reqs:
+        i = ids.index(identifier)
+        s = by_name[namespec.split(':')[1]]
+        why = P.check_choice(dict(s, pend=list(pend)), strat, i)
+        src.check('strategy-order-with-pending-starts', why is None, sig=strat, why=why, namespec=namespec)
+        pend[i] = pend[i] + s['L']
+    src.reach('placed' if reqs else 'nothing-placed')
+
+
 def _late(src, core, targets, reqs, late_reqs, strat):
     """the command added to the job in progress goes where the application goes (its own rule is replaced)"""
     application, dist_rule, plist = targets[0]
@@ -121,6 +142,8 @@ HARNESSES = [
             reach=('distributed',), timeout=(100, 1200),
             doc='SINGLE_INSTANCE / SINGLE_NODE applications through the real Starter: one instance able to carry the '
                 'whole sequence / instances of one node; the application identifiers rule applies'),
+    Harness('H14c', sequence_of_three, quick={'n': 2, 'procs': 3}, thorough={'n': 3, 'procs': 3}, reach=('placed',),
+            timeout=(90, 1200), doc='three processes of one sequence: strategy order with the pending starts added up'),
     Harness('H14b-late', distribution, quick={'n': 2, 'procs': 1, 'lean': True, 'late': True},
             thorough={'n': 3, 'procs': 1, 'lean': True, 'late': True},
             reach=('distributed', 'command-added-to-a-job-in-progress'), timeout=(60, 600),
